@@ -662,6 +662,8 @@ def gen_c02(rng, fs, i, cfg):
         return gen_cliload(rng, fs, i, cfg)
     if r0 < 0.16:
         return gen_clipairs(rng, fs, i, cfg)
+    if r0 < 0.24:
+        return gen_clitabix(rng, fs, i, cfg)
     op = globals()[ctx["theme"]](rng, fs, i, cfg)
     if op is None:
         # the theme is exhausted (e.g. zoomify done): continue with coarsen/merge chains
@@ -790,3 +792,29 @@ def gen_clipairs(rng, fs, i, cfg):
             "path": _dest(rng, fs, fid, prefer_new=0.85), "mode": "a" if rng.random() < 0.85 else "w",
             "chunksize": rng.choice([1, 2, 3, 5, max(1, total // 2), total + 1, 10**6]),
             "max_merge": rng.choice([1, 2, 3, 200]), "mergebuf": rng.choice([None, 1, 3, 10**6])}
+
+
+def gen_clitabix(rng, fs, i, cfg):
+    """Upper-triangle pairs sorted by (chrom1, pos1), bgzipped and tabix-indexed by the op."""
+    kind = rng.choice(["fixed", "fixed-exact", "variable", "mixed-one"])
+    lay = gen.gen_layout(rng, cfg.get("maxchroms", 4), cfg.get("maxbins", 8), kind)
+    n = gen.nbins_of(lay)
+    support = gen.gen_support(rng, n, True, rng.choice([None, "dense", "sparse", "row"]), 30)
+    if not support:
+        support = [(0, 0)]
+    counts = [rng.randint(1, 4) for _ in support]
+    binof = []
+    for c, e in enumerate(lay["edges"]):
+        for s_, e_ in zip(e[:-1], e[1:]):
+            binof.append((c, s_, e_))
+    lines = []
+    for (a, b), v in zip(support, counts):
+        for _ in range(v):
+            ca, sa, ea = binof[a]
+            cb, sb, eb = binof[b]
+            lines.append([ca, rng.randint(sa + 1, ea), cb, rng.randint(sb + 1, eb)])
+    lines.sort(key=lambda t: (t[0], t[1], t[2], t[3]))
+    rec = {"bin1_id": [p[0] for p in support], "bin2_id": [p[1] for p in support], "count": counts}
+    return {"op": "clitabix", "layout": lay, "records": rec, "lines": lines, "symmetric": True,
+            "file": rng.choice(["f4", "f5"]), "path": "/", "nproc": rng.choice([1, 2, 3, 4]),
+            "max_split": rng.choice([1, 2, 3, 5]), "assembly": rng.choice([None, "hg19"])}
